@@ -128,10 +128,21 @@ structure Dev where
   /-- C15-alt-map-nil (alt, pretty): `reflectMap` turns a nil slice, map or `[]byte` that is a map
   VALUE into `nil` (null); everywhere else a nil container is written as an empty one -/
   mapNilNull : Bool
+  /-- C15-omitempty-nested (oj, sen; since /repo 8169704): `newFinfo` hands the field's `omitEmpty` — set
+  by an `omitempty` TAG as well as by the option — to `getTypeStruct`, which since 8169704 really
+  returns the plan built with that flag (before, the lookup found the plain plan the lower-case
+  builder had cached first). A struct that is (the target of) a field tagged `omitempty` — directly,
+  through a pointer, or as the element of a slice, array or map — is therefore written with a plan
+  in which EVERY field is `omitempty`, hereditarily -/
+  nestedOmit : Bool
   deriving DecidableEq, Repr, Inhabited
 
-def Dev.current : Dev := ⟨true, true, true, true, true, true⟩
-def Dev.fixed : Dev := ⟨false, false, false, false, false, false⟩
+/-- the code as it is now (/repo 6d5fecb): leak, tight nil pointer and alt map nil are repaired
+(5f44527, 413ccf5, dda8eb5); 8169704 switched `nestedOmit` on -/
+def Dev.current : Dev := ⟨false, true, true, true, false, false, true⟩
+/-- the tree the first version of this module was written against (/repo ba8abfd) -/
+def Dev.before : Dev := ⟨true, true, true, true, true, true, false⟩
+def Dev.fixed : Dev := ⟨false, false, false, false, false, false, false⟩
 
 /-- the three copies of the machinery -/
 inductive Enc where
@@ -378,11 +389,12 @@ def altPlanForMask (d : Dev) (keyExact om0 : Bool) (tf : Nat) (fs : List (FieldH
   else if u &&& altMaskExact ≠ 0 then plainFields true (!(u &&& altMaskNested == 0)) om0 tf fs
   else plainFields false (!(u &&& altMaskNested == 0)) om0 tf fs
 
-/-- the plan an encoder executes for a struct type under the options -/
-def planOf (e : Enc) (d : Dev) (o : Opts) (tf : Nat) (fs : List (FieldHdr × GoType)) : List Finfo :=
+/-- the plan an encoder executes for a struct type under the options; `om0`: the plan was handed down
+from a field whose `omitEmpty` was set (`fi.elem`, `structEmptyMap`; oj and sen only) -/
+def planOf (e : Enc) (d : Dev) (o : Opts) (tf : Nat) (om0 : Bool) (fs : List (FieldHdr × GoType)) : List Finfo :=
   match e with
-  | .oj => ojPlanForMask d o.keyExact o.omitEmpty tf fs (ojFindex o)
-  | .sen => ojPlanForMask d o.keyExact o.omitEmpty tf fs (ojFindex o)   -- sen/sinfo.go is a copy of oj/sinfo.go
+  | .oj => ojPlanForMask d o.keyExact (o.omitEmpty || om0) tf fs (ojFindex o)
+  | .sen => ojPlanForMask d o.keyExact (o.omitEmpty || om0) tf fs (ojFindex o)   -- sen/sinfo.go is a copy of oj/sinfo.go
   | .alt => altPlanForMask d o.keyExact o.omitEmpty tf fs (altFindex o)
 
 /-! ## plan interpreters and value walkers -/
@@ -414,13 +426,39 @@ structure Quirks where
   mapNilNull : Bool
   /-- a nil embedded pointer on the way to a field panics (otherwise the field is left out) -/
   embNilPanic : Bool
+  /-- the struct under a field whose `omitEmpty` is set is written with the all-`omitempty` plan -/
+  nestedOmit : Bool
+  /-- the plan handed to `appendSlice`/`tightSlice` reaches POINTER elements too (only oj's tight
+  writer dereferences them before the kind switch; the others go through `appendJSON`, which looks
+  the plain plan up) -/
+  slicePtrPlan : Bool
   deriving DecidableEq, Repr
 
 def quirksOf (e : Enc) (d : Dev) (o : Opts) : Quirks :=
   match e with
-  | .oj => ⟨d.bytesAsSlice, d.tightNilDeref && !o.indent, false, d.embNilPanic⟩
-  | .sen => ⟨d.bytesAsSlice, false, false, d.embNilPanic⟩
-  | .alt => ⟨false, false, d.mapNilNull, d.embNilPanic⟩
+  | .oj => ⟨d.bytesAsSlice, d.tightNilDeref && !o.indent, false, d.embNilPanic, d.nestedOmit, !o.indent⟩
+  | .sen => ⟨d.bytesAsSlice, false, false, d.embNilPanic, d.nestedOmit, false⟩
+  | .alt => ⟨false, false, d.mapNilNull, d.embNilPanic, false, false⟩
+
+def isStructT : GoType → Bool
+  | .struct _ _ _ => true
+  | .ptr (.struct _ _ _) => true
+  | _ => false
+
+/-- `newFinfo` sets `fi.elem` for these field types: a struct, a pointer to one, a slice, array or
+map of structs or of pointers to structs -/
+def carriesPlan : GoType → Bool
+  | .slice e => isStructT e
+  | .array _ e => isStructT e
+  | .map e => isStructT e
+  | t => isStructT t
+
+/-- the plan handed down with the value of field `fi` was built with `omitEmpty` -/
+def childOE (q : Quirks) (fi : Finfo) : Bool := q.nestedOmit && fi.omitE && carriesPlan fi.ty
+
+def isPtrT : GoType → Bool
+  | .ptr _ => true
+  | _ => false
 
 def isNilContainer : GoVal → Bool
   | .nilSlice => true
@@ -451,11 +489,12 @@ def createMember (o : Opts) (name pkg : Bytes) : List (Bytes × JV) :=
 /-- The value walker shared by the three copies (`appendJSON`/`appendDefault`/`appendSlice`/
 `appendMap` and their tight twins; `decompose`/`reflectValue`/`reflectArray`/`reflectMap`), with the
 struct case executing `plan`. `viaIface`: the value reaches the type switch on its dynamic type (top
-level, held by an interface); `inElem`: it is an element of a slice, array or map. -/
-def encVal (q : Quirks) (o : Opts) (plan : List (FieldHdr × GoType) → List Finfo) :
-    Nat → Bool → Bool → GoType → GoVal → JV
-  | 0, _, _, _, _ => panicMark
-  | vf + 1, viaIface, inElem, t, v =>
+level, held by an interface); `inElem`: it is an element of a slice, array or map; `oe`: the plan
+`si` handed down with the value was built with `omitEmpty` (`plan oe` is executed for a struct). -/
+def encVal (q : Quirks) (o : Opts) (plan : Bool → List (FieldHdr × GoType) → List Finfo) :
+    Nat → Bool → Bool → Bool → GoType → GoVal → JV
+  | 0, _, _, _, _, _ => panicMark
+  | vf + 1, viaIface, inElem, oe, t, v =>
     match t, v with
     | .bool, .bool b => .bool b
     | .int _, .int i => .int i
@@ -464,27 +503,28 @@ def encVal (q : Quirks) (o : Opts) (plan : List (FieldHdr × GoType) → List Fi
     | .bytes, .nilBytes => if q.bytesNum && !viaIface then bytesAsNumbers [] else bytesAsJV o.bytesAs []
     | .bytes, .bytes b => if q.bytesNum && !viaIface then bytesAsNumbers b else bytesAsJV o.bytesAs b
     | .iface, .nilIface => .null
-    | .iface, .iface dt dv => encVal q o plan vf true false dt dv
+    | .iface, .iface dt dv => encVal q o plan vf true false false dt dv
     | .ptr _, .nilPtr => if inElem && q.elemNilPanic then panicMark else .null
-    | .ptr e, .ptr x => encVal q o plan vf false false e x
+    | .ptr e, .ptr x => encVal q o plan vf false false oe e x
     | .slice e, .nilSlice =>
       -- `case []any: if wr.strict && td == nil` of appendJSON (oj.Marshal only)
       match e with
       | .iface => if viaIface && o.strict then .null else .arr []
       | _ => .arr []
-    | .slice e, .slice xs => .arr (xs.map (encVal q o plan vf false true e))
-    | .array _ e, .arr xs => .arr (xs.map (encVal q o plan vf false true e))
+    | .slice e, .slice xs => .arr (xs.map (encVal q o plan vf false true (oe && (q.slicePtrPlan || !isPtrT e)) e))
+    | .array _ e, .arr xs => .arr (xs.map (encVal q o plan vf false true (oe && (q.slicePtrPlan || !isPtrT e)) e))
     | .map _, .nilMap => .obj []
     | .map e, .map kvs =>
-      .obj (kvs.map fun kv => (kv.1, if q.mapNilNull && isNilContainer kv.2 then .null else encVal q o plan vf false true e kv.2))
+      .obj (kvs.map fun kv => (kv.1, if q.mapNilNull && isNilContainer kv.2 then .null else encVal q o plan vf false true oe e kv.2))
     | .struct name pkg fs, .struct vs =>
-      .obj (createMember o name pkg ++ (plan fs).filterMap (fieldMember q (fun vi ft fv => encVal q o plan vf vi false ft fv) (.struct vs)))
+      .obj (createMember o name pkg ++ (plan oe fs).filterMap
+        (fun fi => fieldMember q (fun vi ft fv => encVal q o plan vf vi false (childOE q fi) ft fv) (.struct vs) fi))
     | _, _ => panicMark
 
 /-- the encoder `e` of the tree under deviations `d`: what `oj.JSON`/`Marshal`/`Write` (`Enc.oj`),
 `sen.String` (`Enc.sen`), `alt.Decompose` and `pretty.JSON` (`Enc.alt`) describe -/
 def encode (e : Enc) (d : Dev) (o : Opts) (tf vf : Nat) (t : GoType) (v : GoVal) : JV :=
-  encVal (quirksOf e d o) o (planOf e d o tf) vf true false t v
+  encVal (quirksOf e d o) o (planOf e d o tf) vf true false false t v
 
 /-! ## runs of the unchanged code that hit none of the listed deviations -/
 
@@ -508,7 +548,8 @@ def isIface : GoType → Bool
 `d` (the named predicate the partial theorem excludes): an `omitempty` tag in a struct type written in
 tag mode (`leak`), `UseTags` without `KeyExact` (`tagExact`), a `[]byte` outside the `appendJSON` type
 switch (`bytesAsSlice`), a nil embedded pointer on the way to a field (`embNilPanic`), a nil pointer
-element under the tight writer (`tightNilDeref`), a nil container as a map value (`mapNilNull`).
+element under the tight writer (`tightNilDeref`), a nil container as a map value (`mapNilNull`), a
+field with `omitempty` whose type carries a struct plan (`nestedOmit`).
 `plan` is the repaired plan. -/
 def untriggered (e : Enc) (d : Dev) (o : Opts) (tf : Nat) (plan : List (FieldHdr × GoType) → List Finfo) :
     Nat → Bool → Bool → GoType → GoVal → Bool
@@ -527,6 +568,7 @@ def untriggered (e : Enc) (d : Dev) (o : Opts) (tf : Nat) (plan : List (FieldHdr
       (!d.leak || !o.useTags || e == .alt || noOmitTag tf fs) &&
       (!d.tagExact || !o.useTags || o.keyExact) &&
       (plan fs).all fun fi =>
+        !childOE (quirksOf e d o) fi &&
         match fieldByIndex (.struct vs) fi.index with
         | none => !(quirksOf e d o).embNilPanic
         | some x => untriggered e d o tf plan vf (isIface fi.ty) false fi.ty x
